@@ -80,6 +80,10 @@ type result struct {
 	HarnessErr  string         `json:"harness_err,omitempty"`
 	CrashWindow int            `json:"crash_window"` // executions whose crash fell between reservation-pod create and consumer label patch
 	Skipped     int            `json:"skipped"`
+	// Replaced / ReplaceSkipped: executions in which the scheduler replaced the request after the
+	// faulty attempt / could not because the pod was already bound
+	Replaced       int `json:"replaced"`
+	ReplaceSkipped int `json:"replace_skipped"`
 }
 
 type finding struct {
@@ -388,6 +392,9 @@ func causesOf(o *Outcome, f br.Finding) []string {
 		}
 	}
 	sort.Strings(causes)
+	if o.Spec.Replaced && f.Attempt < 0 {
+		causes = append(causes, "then-request-replaced")
+	}
 	return causes
 }
 
@@ -404,7 +411,17 @@ func (r *runner) runJob(in *scenInfo, j job) {
 			}
 			ref = &o0.Attempts[0]
 		}
-		r.exec(sc, Spec{Scenario: sc.Name, Attempts: [][]br.Dev{j.Prefix}}, ref, len(j.Prefix))
+		o := r.exec(sc, Spec{Scenario: sc.Name, Attempts: [][]br.Dev{j.Prefix}}, ref, len(j.Prefix))
+		// the same faulty attempt, after which the scheduler replaces the request by one selecting other GPU groups
+		if o != nil && sc.Target.Fraction && len(j.Prefix) > 0 {
+			if o2 := r.exec(sc, Spec{Scenario: sc.Name, Attempts: [][]br.Dev{j.Prefix}, Replaced: true}, ref, len(j.Prefix)); o2 != nil {
+				if o2.ReplaceSkipped {
+					r.res.ReplaceSkipped++
+				} else {
+					r.res.Replaced++
+				}
+			}
+		}
 	case "pairs":
 		// the first deviation's execution defines which later calls exist (Rollback path etc.)
 		o1, err := Execute(sc, Spec{Scenario: sc.Name, Attempts: [][]br.Dev{j.Prefix}})
@@ -537,6 +554,8 @@ func run(tier string) int {
 		agg.Changed += r.Changed
 		agg.Replays += r.Replays
 		agg.CrashWindow += r.CrashWindow
+		agg.Replaced += r.Replaced
+		agg.ReplaceSkipped += r.ReplaceSkipped
 		agg.Skipped += r.Skipped
 		agg.Diverged = append(agg.Diverged, r.Diverged...)
 		for k, v := range r.ByBound {
@@ -631,6 +650,8 @@ func run(tier string) int {
 		"chained_start_states":      chainStates,
 		"jobs":                      len(jobs),
 		"crash_points_between_reservation_create_and_label": agg.CrashWindow,
+		"executions_with_request_replaced_by_scheduler":     agg.Replaced,
+		"request_replacement_not_applicable_pod_bound":      agg.ReplaceSkipped,
 		"determinism_replays":       agg.Replays,
 		"executions_skipped_by_deadline": agg.Skipped,
 		"exhaustive":                exhaustive,
